@@ -385,7 +385,7 @@ def render(syms: list, rng: random.Random | None) -> str:
 def run_jobs(path: str, out: hlib.RecWriter, stats: dict) -> None:
     jobs = json.load(open(path))
     rng = random.Random(hlib.seed() * 104729 + 1)
-    variants = 2 if hlib.tier() == 'thorough' else 1
+    variants = 1
     # rt jobs: one record per tree, all its option sets together, the default options first
     by_doc: dict = {}
     for j in jobs:
